@@ -3,6 +3,7 @@ price) − short at mark, from the raw vault state; a lent LP position is counte
 Uniswap market: exactly once overall (demeter/squeeth/market.py:get_market_balance, uniswap/market.py:get_market_balance)."""
 from __future__ import annotations
 
+import random
 from decimal import Decimal as D
 from fractions import Fraction as F
 
@@ -16,10 +17,21 @@ DRIVERS = ["driver_squeeth"]
 RULE = ("the C14 operation sequences (vault operations with and without LP collateral, pool-side remove_liquidity, buy_squeeth / sell_squeeth in both "
         "parameter forms, liquidations along price / norm-factor paths); after every step the raw state is valued independently (exact fractions, closed-form Uniswap amounts) and compared "
         "with SqueethMarket.get_market_balance, UniLpMarket.get_market_balance and Broker.get_account_status, and the model's views are diffed "
-        "field by field; bucket = (last operation, outcome, #vaults with LP, #free positions, path kind)")
+        "field by field; bucket = (last operation, outcome, #vaults with LP, #free positions, path kind). "
+        "interleave:* — the strategy's pool operations on the oSQTH/WETH UniLpMarket (add_liquidity on a new range / the range of a free / of a LENT position, "
+        "remove_liquidity all / part / collecting or not, collect_fee all / capped, fee accrual; on free, lent and unknown positions) interleaved with vault "
+        "operations (open / mint with LP collateral, deposit_uni / withdraw_uni, burn / withdraw, liquidate / reduce debt / update() after price moves): after "
+        "every step the count clause (every position: not flagged and in no vault, or flagged and in exactly one vault) and the value-level exactly-once equation "
+        "uniNV·WETH + squeethNV = Σ_free poolValue·WETH + Σ_vaults (coll + lent LP at the index price)·WETH − Σ short·mark on the reported figures. "
+        "actuator-run-pool-ops:* — whole Actuator runs whose strategy mixes those pool operations with its vault operations (update() liquidates at bar end). "
+        "direct:* / direct-directed:* — the same with DIRECT calls of the public uni_market.transfer_position_out / transfer_position_in by the strategy: "
+        "the first state with a position counted 0 or 2 times ends the sequence (known findings squeeth.direct-transfer.*; without a direct call the same "
+        "observation is reported under squeeth.once.flagged-without-vault / squeeth.once.vault-position-not-flagged)")
 TRUSTED = ["the TWAP geometric mean is an oracle value captured from the real calc_twap_price",
            "closed-form Uniswap v3 amounts (C07) are used by the independent valuation; they are compared with the code's 35-digit values at 1e-28"]
-ASSUMPTIONS = ["pool orientation token0 = WETH = quote; account quote token USD; account prices derived from the squeeth row (WETH, OSQTH*WETH)"]
+ASSUMPTIONS = ["pool orientation token0 = WETH = quote (and the flipped pool); account prices derived from the squeeth row (WETH, OSQTH*WETH), converted into the "
+               "account's quote token: USD (squeeth:account:same-quote), a stable coin with 1 USD = u of it, u in {0.97, 1.03, 2000, 0.000625, 1.0000001, 1}, or WETH "
+               "(squeeth:account:other-quote:u<1|u>1|u=1|pool-quote)"]
 
 TOL = F(1, 10 ** 28)
 
@@ -34,9 +46,33 @@ FIELDS = ["net_value", "collateral_amount", "collateral_value", "osqth_long_amou
           "osqth_net_amount", "collateral_ratio"]
 
 
-def observe_views(world):
+# The unit of a market's value.  SqueethMarket.quote_token is USD (its data's WETH column is the USD price of ETH, its oSQTH column is in ETH:
+# net value = coll·WETH − short·oSQTH·WETH is in USD); the pool market is quoted in WETH.  Besides the USD-quoted account (Squeeth same-quote,
+# pool other-quote) the account is valued quoted in a stable coin Q with 1 USD = u Q (Squeeth other-quote: × prices[USD] = u, pool: × prices[WETH]
+# = weth·u) and quoted in WETH (pool same-quote, Squeeth other-quote with prices[USD] = 1/weth; outside what check_backtest admits, but
+# get_account_status is a public method that does not ask).
+ACCT_QUOTES = [["USDC", "0.97"], ["DAI", "1.03"], ["USDT", "2000"], ["WETH", None], ["USDC", "0.000625"], ["FDUSD", "1"], ["USDC", "1.0000001"]]
+_acct_cycle = [0]
+
+
+def next_acct_quote():
+    _acct_cycle[0] += 1
+    return ACCT_QUOTES[_acct_cycle[0] % len(ACCT_QUOTES)]
+
+
+def acct_prices(acct_quote, w, o):
+    """the account's price row when it is quoted in Q: (quote token name, {token: Decimal})"""
+    q, u = acct_quote
+    if q == "WETH":
+        return q, {"WETH": D(1), "OSQTH": D(o), "USD": D(1) / D(w)}
+    u = D(u)
+    return q, {"WETH": D(w) * u, "OSQTH": D(o) * D(w) * u, "USD": u, q: D(1)}
+
+
+def observe_views(world, acct_quote=None):
     """what the three valuation entry points of the real code answer in the current state"""
     from demeter._typing import USD
+    from demeter import TokenInfo
     world.broker.quote_token = USD
     nf, w, o = world.cur()
     prices = {"WETH": w, "OSQTH": o * w}
@@ -58,16 +94,35 @@ def observe_views(world):
         obs["account_net_value"] = D(st.net_value)
     except Exception as ex:  # noqa: BLE001
         obs["account_err"] = type(ex).__name__
+    # the same account quoted in another token than the Squeeth market
+    obs["acct_quote"] = acct_quote = list(acct_quote) if acct_quote is not None else next_acct_quote()
+    if D(w) > 0:
+        qname, p2 = acct_prices(acct_quote, w, o)
+        obs["prices_other"] = p2
+        world.broker.quote_token = world.weth if qname == "WETH" else TokenInfo(qname.lower(), 6)
+        try:
+            obs["account_other_net_value"] = D(world.broker.get_account_status(p2).net_value)
+        except Exception as ex:  # noqa: BLE001
+            obs["account_other_err"] = f"{type(ex).__name__}({str(ex)[:60]})"
+        finally:
+            world.broker.quote_token = USD
     return obs
 
 
-def oracle(ctx, state, env, envj, tw, to, cur, obs, replay, last):
+KEY_DIRECT_FLAGGED = "squeeth.direct-transfer.flagged-position-without-vault"
+KEY_DIRECT_UNFLAGGED = "squeeth.direct-transfer.vault-position-not-flagged"
+
+
+def oracle(ctx, state, env, envj, tw, to, cur, obs, replay, last, direct=None):
+    """`direct`: None, or a description of the DIRECT transfer_position_out / _in calls the strategy made earlier in this sequence.
+    Returns False when the count clause fails (the state is then outside the property's domain: the caller stops the sequence)."""
     nf, weth, osqth = (L.fr(x) for x in cur)
     sp = L.Spec(state, env, tw, to, nf)
     mark_usd = osqth * weth
     idx = sp.nf * sp.tw / 10000
     uni = L.fr(env["uniPrice"])
-    # ---- exactly once: every pool position is either free (counted by the pool) or lent to exactly one vault
+    # ---- exactly once (count level): every pool position is either free — not `transferred`, referenced by no vault: counted by the pool — or
+    # lent — `transferred` and referenced by exactly one vault: counted by that vault, skipped by the pool
     refs = {}
     for vid, v in state["vaults"]:
         if v["nft"] is not None:
@@ -75,13 +130,27 @@ def oracle(ctx, state, env, envj, tw, to, cur, obs, replay, last):
     for key, vids in refs.items():
         if key not in sp.pos:
             ctx.violate(f"squeeth.once.dangling:{last}", f"after {last}: vault(s) {vids} reference LP position {list(key)} which is not in the pool", replay)
-            return
+            return False
     for key, p in sp.pos.items():
-        n = (0 if p["transferred"] else 1) + len(refs.get(key, []))
-        if n != 1:
+        vids = refs.get(key, [])
+        n = (0 if p["transferred"] else 1) + len(vids)
+        if n == 1:
+            continue
+        # a sequence in which the strategy itself called the public transfer_position_out / transfer_position_in is outside the property's
+        # domain by design (known findings); without such a call the same observation is a regression and keeps its own key
+        how = f" [history: {direct}]" if direct else ""
+        if p["transferred"] and not vids:
+            ctx.violate(KEY_DIRECT_FLAGGED if direct else "squeeth.once.flagged-without-vault",
+                        f"after {last}: LP position {list(key)} (liquidity {p['liquidity']}, uncollected {p['p0']} / {p['p1']}) is flagged `transferred` and no vault "
+                        f"references it: the pool skips it, nobody counts it: counted 0 times{how}", replay)
+        elif not p["transferred"] and len(vids) == 1:
+            ctx.violate(KEY_DIRECT_UNFLAGGED if direct else "squeeth.once.vault-position-not-flagged",
+                        f"after {last}: LP position {list(key)} is collateral of vault {vids[0]} and is not flagged `transferred`: counted by the pool and by the "
+                        f"vault: counted 2 times{how}", replay)
+        else:
             ctx.violate(f"squeeth.once.count:{last}", f"after {last}: LP position {list(key)} (transferred={p['transferred']}) is referenced by vaults "
-                        f"{refs.get(key, [])}: counted {n} times", replay)
-            return
+                        f"{vids}: counted {n} times{how}", replay)
+        return False
     # ---- get_market_balance from the raw vault state
     coll = sum((sp.eff_coll(v) for _, v in state["vaults"]), F(0))
     short = sum((L.fr(v["short"]) for _, v in state["vaults"]), F(0))
@@ -112,13 +181,48 @@ def oracle(ctx, state, env, envj, tw, to, cur, obs, replay, last):
         if not close(obs["uni_net_value"], uni_want) or obs["uni_count"] != len(free):
             ctx.violate("squeeth.uni.skips-lent", f"after {last}: UniLpMarket net value {obs['uni_net_value']} / count {obs['uni_count']}, free positions are worth "
                         f"{float(uni_want):.15g} / {len(free)}", replay)
+    # ---- exactly once (value level), on what the two markets REPORT:  uniNV·WETH + squeethNV = Σ_free poolValue·WETH + Σ_vaults (coll + lent LP at
+    # the index price)·WETH − Σ short · mark   (lean: C01_squeeth_balance_from_raw_state, Squeeth.lpCollateral / effColl, Views.uniNetValue)
+    if "uni_net_value" in obs and "balance" in obs:
+        lhs = L.fr(obs["uni_net_value"]) * weth + L.fr(obs["balance"]["net_value"])
+        free_val = sum(((lambda wq: wq[0] + wq[1] * uni)(sp.lp_tokens(k)) for k, p in sp.pos.items() if not p["transferred"]), F(0))
+        lent_val = F(0)
+        for _, v in state["vaults"]:
+            if v["nft"] is not None:
+                lw, lq = sp.lp_tokens(v["nft"])
+                lent_val += lw + lq * idx
+        plain = sum((L.fr(v["coll"]) for _, v in state["vaults"]), F(0))
+        rhs = free_val * weth + (plain + lent_val) * weth - short * mark_usd
+        if not close(lhs, rhs, (free_val + plain + lent_val) * weth + short * mark_usd):
+            ctx.violate("squeeth.once.value", f"after {last}: pool net value {obs['uni_net_value']} WETH x {weth} + squeeth net value {obs['balance']['net_value']} = "
+                        f"{float(lhs):.15g}, the raw state is worth {float(rhs):.15g} (free positions {float(free_val):.12g} WETH, vault ETH {float(plain):.12g}, "
+                        f"lent positions at the index price {float(lent_val):.12g} WETH, short {float(short):.12g} oSQTH at {float(mark_usd):.10g})", replay)
     # ---- the account: wallet + every holding once
     if "account_net_value" in obs and "balance" in obs:
         wallet = sum((L.fr(b) * (weth if n == "WETH" else mark_usd) for n, b in state["wallet"]), F(0))
         total = wallet + want["net_value"] + uni_want * weth
+        ctx.case("squeeth:account:same-quote")
         if not close(obs["account_net_value"], total, wallet + coll * weth + short * mark_usd + uni_want * weth):
             ctx.violate("squeeth.account.net_value", f"after {last}: account net value {obs['account_net_value']}, independent valuation {float(total):.15g}", replay)
-    return idx
+    # ---- the account quoted in another token than the Squeeth market: every holding once, at the ACCOUNT's price of its token
+    if "prices_other" in obs and "balance" in obs and "uni_net_value" in obs:
+        qn, u = obs["acct_quote"]
+        P = {k: L.fr(v) for k, v in obs["prices_other"].items()}
+        uclass = "pool-quote" if qn == "WETH" else ("u=1" if P["USD"] == 1 else ("u<1" if P["USD"] < 1 else "u>1"))
+        ctx.case(f"squeeth:account:other-quote:{uclass}:lp{min(sum(1 for _, v in state['vaults'] if v['nft']), 1)}:free{min(len(free), 1)}:short{int(short != 0)}")
+        if "account_other_err" in obs:
+            ctx.violate("squeeth.account.quote-conversion:raises", f"after {last}: account quoted in {qn} (prices {obs['prices_other']}): get_account_status raised "
+                        f"{obs['account_other_err']}", replay)
+        else:
+            wallet2 = sum((L.fr(b) * P[n] for n, b in state["wallet"]), F(0))
+            total2 = wallet2 + coll * P["WETH"] - short * P["OSQTH"] + uni_want * P["WETH"]
+            if not close(obs["account_other_net_value"], total2, abs(wallet2) + coll * P["WETH"] + short * P["OSQTH"] + uni_want * P["WETH"]):
+                ctx.violate("squeeth.account.quote-conversion", f"after {last}: account quoted in {qn}" + (f" with 1 USD = {u} {qn}" if u else "") +
+                            f", prices {({k: str(v) for k, v in obs['prices_other'].items()})}: get_account_status().net_value = "
+                            f"{obs['account_other_net_value']}, every holding at the account's prices is worth {float(total2):.15g} (wallet {float(wallet2):.12g}, "
+                            f"vault collateral {float(coll):.12g} WETH, short {float(short):.12g} oSQTH, free LP {float(uni_want):.12g} WETH; squeeth reports "
+                            f"{obs['balance']['net_value']} USD, the pool {obs['uni_net_value']} WETH)", replay)
+    return True
 
 
 def compare_views(ctx, ans, obs, replay, last):
@@ -157,7 +261,7 @@ def sequence(ctx, pending, steps):
         tw, to = world.sq.get_twap_price(world.weth), world.sq.get_twap_price(world.osqth)
         cur = world.cur()
         obs = observe_views(world)
-        replay = {"spec": state, "env": dict(world.env), "after": last}
+        replay = {"spec": state, "env": dict(world.env), "after": last, "acct_quote": obs["acct_quote"]}
         oracle(ctx, state, world.env, envj, tw, to, cur, obs, replay, last)
         n_lp = sum(1 for _, v in state["vaults"] if v["nft"])
         n_free = sum(1 for _, p in state["positions"] if not p["transferred"])
@@ -179,10 +283,110 @@ def view_point(ctx, world, pending, last, tag):
     envj = L.snapshot_env(world)
     tw, to = world.sq.get_twap_price(world.weth), world.sq.get_twap_price(world.osqth)
     obs = observe_views(world)
-    replay = {"spec": state, "env": dict(world.env), "after": last}
+    replay = {"spec": state, "env": dict(world.env), "after": last, "acct_quote": obs["acct_quote"]}
     oracle(ctx, state, world.env, envj, tw, to, world.cur(), obs, replay, last)
     pending.append(({"fn": "views", "ctx": "py", "state": state, "env": envj}, obs, replay, last))
     ctx.case(f"{'flip:' if world.env.get('flip') else ''}{tag}:{last}", {"after": last})
+
+
+def interleaved(ctx, pending, rng, direct, every=1):
+    """pool operations of the strategy on the oSQTH/WETH UniLpMarket (add_liquidity on a new range / on the range of a free or of a LENT
+    position, remove_liquidity, collect_fee, fee accrual) INTERLEAVED with vault operations (open / mint with an LP position as collateral,
+    deposit_uni / withdraw_uni, burn / withdraw, liquidation and reduce-debt by update() after price moves).  After every step the count clause
+    and the value-level exactly-once equation are evaluated on the implementation's raw state.  With `direct` the strategy also calls the public
+    transfer_position_out / transfer_position_in itself: the first state in which a position is counted 0 or 2 times ends the sequence (known
+    findings squeeth.direct-transfer.*).  `rng` is this stream's own generator (the draws of the other streams stay what they were)."""
+    env = G.gen_env(rng, rng.choice(["spot", "twap", "twap", "shock"]))
+    if rng.random() < 0.9:
+        env["uniOpen"] = True
+    world = L.World(G.empty_state(rng, with_osqth=True), env)
+    for _ in range(rng.choice([1, 1, 2, 3])):
+        G.add_position(rng, world, fees=rng.random() < 0.5)
+    last, hist, side_prev, mixed = "init", [], None, 0
+    steps = rng.randint(6, 16)
+    pfx = "direct" if direct else "interleave"
+    for i in range(steps + 1):
+        state = world.dump_state()
+        envj = L.snapshot_env(world)
+        tw, to = world.sq.get_twap_price(world.weth), world.sq.get_twap_price(world.osqth)
+        obs = observe_views(world)
+        replay = {"spec": state, "env": dict(world.env), "after": last, "acct_quote": obs["acct_quote"]}
+        if hist:
+            replay["direct"] = "; ".join(hist)
+        ok = oracle(ctx, state, world.env, envj, tw, to, world.cur(), obs, replay, last, direct="; ".join(hist) if hist else None)
+        n_lp = sum(1 for _, v in state["vaults"] if v["nft"])
+        n_free = sum(1 for _, p in state["positions"] if not p["transferred"])
+        # remove_liquidity(pos, <int>) goes through @float_param_formatter: the position's liquidity is a Decimal from then on and the amounts are
+        # computed in 35-digit Decimal arithmetic instead of integers (last-digit differences).  The Squeeth model's positions carry an integer
+        # liquidity only (the Uniswap model has the flag, C01 uni part): such states are judged by the oracles alone.
+        int_liq = all(isinstance(p.liquidity, int) for p in world.uni.positions.values())
+        if not int_liq:
+            ctx.count("interleaved_views_oracle_only_decimal_liquidity")
+        elif i % every == 0 or not ok:
+            pending.append(({"fn": "views", "ctx": "py", "state": state, "env": envj}, obs, replay, last))
+        ctx.case(f"{'flip:' if world.env.get('flip') else ''}{pfx}:{last}:lp{min(n_lp, 2)}:free{min(n_free, 2)}{'' if ok else ':COUNT-BROKEN'}",
+                 {"after": last, "vaults": len(state["vaults"]), "positions": len(state["positions"])})
+        if not ok:
+            ctx.count(f"{pfx}_sequences_stopped_at_count_violation")
+            break
+        if i == steps:
+            break
+        r = rng.random()
+        if r < 0.18:
+            world.set_env(G.shift_env(rng, world.env))
+            if rng.random() < 0.85:
+                world.uni.is_open = True
+                world.env["uniOpen"] = True
+        st = world.dump_state()
+        if rng.random() < 0.5:
+            op, argc = G.gen_pool_op(rng, world, st, direct=direct)
+            side = "pool"
+        else:
+            op, argc = G.gen_lp_vault_op(rng, world, st)
+            side = "vault"
+        err, _, _ = world.apply_op(op)
+        if side_prev is not None and side != side_prev:
+            mixed += 1
+        side_prev = side
+        if op["k"] in ("uniTransferOut", "uniTransferIn") and err is None:
+            hist.append(f"step {i + 1}: uni_market.{'transfer_position_out' if op['k'] == 'uniTransferOut' else 'transfer_position_in'}({op['pos']}) called directly")
+        last = f"{op['k']}:{'ok' if err is None else err}:{argc}"
+    ctx.count(f"{pfx}_sequences")
+    ctx.count(f"{pfx}_side_switches", mixed)
+
+
+def direct_transfer_directed(ctx, pending, rng):
+    """the two shortest histories with a DIRECT call of the public transfer methods (what the Lean witness C01_fails_direct_transfer does on the
+    model): (a) add liquidity, then uni_market.transfer_position_out(pos) — a flagged position no vault holds; (b) open a vault with the position
+    as collateral, then uni_market.transfer_position_in(pos) — the vault's position counted by the pool as well; and the harmless round trips
+    (out then in; on a lent position: in then out) after which every position is counted once again."""
+    for variant in ("out", "in", "out-in", "lent-in-out"):
+        env = G.gen_env(rng, rng.choice(["spot", "twap"]))
+        env["uniOpen"] = True
+        world = L.World(G.empty_state(rng, with_osqth=True), env)
+        key = G.add_position(rng, world, fees=rng.random() < 0.5)
+        if not key:
+            ctx.case(f"direct-directed:{variant}:setup-rejected")
+            continue
+        hist = []
+        if variant in ("in", "lent-in-out"):
+            err, _, _ = world.apply_op({"k": "openMint", "deposit": G.dec(rng, 1, 6, 4), "mint": D(0), "vk": None, "pos": key})
+            if err is not None:
+                ctx.case(f"direct-directed:{variant}:setup-rejected")
+                continue
+        calls = {"out": ["uniTransferOut"], "in": ["uniTransferIn"], "out-in": ["uniTransferOut", "uniTransferIn"], "lent-in-out": ["uniTransferIn", "uniTransferOut"]}[variant]
+        for c in calls:
+            err, _, _ = world.apply_op({"k": c, "pos": key})
+            hist.append(f"uni_market.{'transfer_position_out' if c == 'uniTransferOut' else 'transfer_position_in'}({key}) called directly -> {err or 'ok'}")
+        state = world.dump_state()
+        envj = L.snapshot_env(world)
+        tw, to = world.sq.get_twap_price(world.weth), world.sq.get_twap_price(world.osqth)
+        obs = observe_views(world)
+        last = f"{calls[-1]}:{'ok' if err is None else err}"
+        replay = {"spec": state, "env": dict(world.env), "after": last, "acct_quote": obs["acct_quote"], "direct": "; ".join(hist)}
+        ok = oracle(ctx, state, world.env, envj, tw, to, world.cur(), obs, replay, last, direct="; ".join(hist))
+        pending.append(({"fn": "views", "ctx": "py", "state": state, "env": envj}, obs, replay, last))
+        ctx.case(f"{'flip:' if world.env.get('flip') else ''}direct-directed:{variant}:{last}{'' if ok else ':COUNT-BROKEN'}", {"after": last, "history": hist})
 
 
 LP_OPS = ["reduceDebt", "reduceDebt-nobounty", "liquidate", "update", "withdrawUni", "depositUni", "uniRemove", "burnWithdraw", "openMint"]
@@ -233,11 +437,13 @@ def lent_lp_directed(ctx, pending):
                 view_point(ctx, w, pending, f"{name}:{'ok' if err is None else err}", f"lent-lp:{'closed' if closed else 'open'}:{'shock' + str(shock) if shock else 'flat'}")
 
 
-def actuator_runs(ctx, pending):
+def actuator_runs(ctx, pending, rng=None, pool_ops=False):
     """whole backtests through the real Actuator: minutely oSQTH/WETH pool + SqueethMarket over a generated price / norm-factor path with a
     shock; the strategy adds liquidity, opens vaults (some with the LP position lent as collateral), deposits / withdraws the LP, burns and
     withdraws at random bars; `update()` liquidates at bar end.  At EVERY bar, after `update()`, the raw state is valued independently and
-    compared with the views, and the net value the run REPORTS for that bar (`Actuator._account_status_list`) must be that same number."""
+    compared with the views, and the net value the run REPORTS for that bar (`Actuator._account_status_list`) must be that same number.
+    `pool_ops` (with its own `rng`): the strategy also works on the pool side — add_liquidity on new / free / lent ranges, remove_liquidity, collect_fee —
+    between its vault operations."""
     import contextlib
     import io
     import logging
@@ -246,7 +452,7 @@ def actuator_runs(ctx, pending):
     from datetime import timedelta
     os.environ["TQDM_DISABLE"] = "1"
     from demeter import Strategy, Actuator
-    rng = ctx.rng
+    rng = rng or ctx.rng
     logging.disable(logging.CRITICAL)
     n = rng.randint(8, 20)
     rows = G.gen_rows(rng, n, 1, (rng.randint(2, n - 2), rng.choice([1.25, 1.5, 2.0, 0.7])))
@@ -277,6 +483,7 @@ def actuator_runs(ctx, pending):
     view.tokens = {"WETH": weth, "OSQTH": osqth}
     view.log, view.flip = [], flip
     seen = []
+    kinds = set()
 
     class Strat(Strategy):
         def on_bar(self, snapshot):
@@ -288,7 +495,12 @@ def actuator_runs(ctx, pending):
                 if rng.random() < 0.25:
                     G.add_position(rng, view, fees=rng.random() < 0.3)
                     continue
-                op, _ = G.gen_op(rng, view, view.dump_state())
+                if pool_ops and rng.random() < 0.5:
+                    op, _ = G.gen_pool_op(rng, view, view.dump_state())
+                    view.apply_op(op)
+                    kinds.add(op["k"])
+                    continue
+                op, _ = G.gen_lp_vault_op(rng, view, view.dump_state()) if pool_ops else G.gen_op(rng, view, view.dump_state())
                 if op["k"] in ("update", "reduceDebt"):
                     continue
                 view.apply_op(op)
@@ -297,7 +509,7 @@ def actuator_runs(ctx, pending):
             state = view.dump_state()
             envj = L.snapshot_env(view)
             tw, to = sq.get_twap_price(weth), sq.get_twap_price(osqth)
-            seen.append((state, dict(view.env), envj, tw, to, view.cur(), observe_views(view)))
+            seen.append((state, dict(view.env), envj, tw, to, view.cur(), observe_views(view), all(isinstance(p.liquidity, int) for p in uni.positions.values())))
 
     act.strategy = Strat()
     try:
@@ -307,20 +519,20 @@ def actuator_runs(ctx, pending):
         ctx.violate(f"squeeth.run.raises:{type(ex).__name__}", f"Actuator.run raised {type(ex).__name__}({str(ex)[:80]})", {"rows": rows})
     finally:
         logging.disable(logging.NOTSET)
-    for k, (state, env, envj, tw, to, cur, obs) in enumerate(seen):
+    for k, (state, env, envj, tw, to, cur, obs, int_liq) in enumerate(seen):
         last = f"run-bar{min(k, 3)}"
-        replay = {"spec": state, "env": env, "after": f"actuator run, bar {k}"}
+        replay = {"spec": state, "env": env, "after": f"actuator run, bar {k}" + (f" (pool operations so far: {sorted(kinds)})" if pool_ops else ""), "acct_quote": obs["acct_quote"]}
         oracle(ctx, state, env, envj, tw, to, cur, obs, replay, last)
         if k < len(act._account_status_list) and "account_net_value" in obs:
             rep_nv = D(act._account_status_list[k].net_value)
             if L.fr(rep_nv) != L.fr(obs["account_net_value"]):
                 ctx.violate("squeeth.run.reported-net-value", f"bar {k}: the run reports net value {rep_nv}, the account valued in the state after update() is "
                             f"{obs['account_net_value']}", replay)
-        if not flip:
+        if not flip and int_liq:
             pending.append(({"fn": "views", "ctx": "py", "state": state, "env": envj}, obs, replay, last))
         n_lp = sum(1 for _, v in state["vaults"] if v["nft"])
-        ctx.case(f"{'flip:' if flip else ''}actuator-run:lp{min(n_lp, 2)}:v{min(len(state['vaults']), 3)}:free{min(sum(1 for _, p in state['positions'] if not p['transferred']), 2)}")
-    ctx.count("actuator_runs")
+        ctx.case(f"{'flip:' if flip else ''}actuator-run{'-pool-ops' if pool_ops else ''}:lp{min(n_lp, 2)}:v{min(len(state['vaults']), 3)}:free{min(sum(1 for _, p in state['positions'] if not p['transferred']), 2)}")
+    ctx.count("actuator_runs_pool_ops" if pool_ops else "actuator_runs")
 
 
 def run(ctx: Ctx):
@@ -331,6 +543,15 @@ def run(ctx: Ctx):
         lent_lp_directed(ctx, pending)
     for _ in range(ctx.scale(15, 300)):
         actuator_runs(ctx, pending)
+    irng = random.Random(f"c01_squeeth.interleaved:{ctx.seed}")      # own stream
+    for _ in range(ctx.scale(45, 1500)):
+        interleaved(ctx, pending, irng, direct=False, every=1 if ctx.thorough else 2)
+    for _ in range(ctx.scale(30, 600)):
+        interleaved(ctx, pending, irng, direct=True, every=1 if ctx.thorough else 3)
+    for _ in range(ctx.scale(3, 40)):
+        direct_transfer_directed(ctx, pending, irng)
+    for _ in range(ctx.scale(8, 200)):
+        actuator_runs(ctx, pending, rng=irng, pool_ops=True)
     ctx.impl_traces = len(pending)
     if ctx.driver_ok and pending:
         modelled = [p for p in pending if not p[2]["env"].get("flip")]      # the model knows the mainnet orientation (token0 = WETH) only
@@ -344,9 +565,9 @@ def replay(ctx: Ctx, case) -> bool:
     state = world.dump_state()
     envj = L.snapshot_env(world)
     tw, to = world.sq.get_twap_price(world.weth), world.sq.get_twap_price(world.osqth)
-    obs = observe_views(world)
+    obs = observe_views(world, case.get("acct_quote"))
     sub = Ctx(ctx.prop, ctx.tier, ctx.seed, False)
-    oracle(sub, state, world.env, envj, tw, to, world.cur(), obs, case, case.get("after", "replay"))
+    oracle(sub, state, world.env, envj, tw, to, world.cur(), obs, case, case.get("after", "replay"), direct=case.get("direct"))
     for v in sub.violations:
         print("  ", v["key"], "—", v["what"][:300])
     return not sub.violations
